@@ -5,6 +5,7 @@ import glob, json, os, re, shutil, subprocess, time
 PLAN = {
     "C07": {"filters": ["c07::"], "timeout": (150, 2700), "jobs": (12, 8)},
     # thorough-tier extras: symbolic node identifiers for two lax operations (complements the lax tier of Engine S)
+    "C09": {"filters": ["lax_k::c09_"], "timeout": (0, 1500), "jobs": (2, 2), "thorough_only": True},
     "C10": {"filters": ["lax_k::c10_"], "timeout": (0, 1200), "jobs": (2, 2), "thorough_only": True},
     "C11": {"filters": ["lax_k::c11_"], "timeout": (0, 1200), "jobs": (2, 2), "thorough_only": True},
 }
